@@ -12,6 +12,7 @@ package broker
 import (
 	"context"
 	"encoding/json"
+	"errors"
 	"fmt"
 	"strings"
 	"testing"
@@ -20,6 +21,7 @@ import (
 	clientv3 "go.etcd.io/etcd/client/v3"
 
 	"github.com/KafScale/platform/internal/testutil"
+	metadatapb "github.com/KafScale/platform/pkg/gen/metadata"
 	"github.com/KafScale/platform/pkg/metadata"
 	"github.com/KafScale/platform/pkg/protocol"
 	"github.com/twmb/franz-go/pkg/kmsg"
@@ -49,6 +51,60 @@ type c16Step struct {
 	// ... or a whole OffsetCommit request: topics x partitions, metadata null / "" / text
 	Creq []c16CTopic `json:"creq,omitempty"`
 	Req  []c16Req    `json:"req,omitempty"`
+	// ... or another store operation in between (on a related topic / group)
+	Sop *c16Sop `json:"sop,omitempty"`
+}
+
+// store operations that may touch committed offsets as a side effect
+type c16Sop struct {
+	K     string `json:"k"` // ct dt cp dg uc
+	Topic string `json:"topic,omitempty"`
+	Group string `json:"group,omitempty"`
+	N     int32  `json:"n,omitempty"`
+}
+
+var c16ErrNames = []string{"ENone", "EInvalidTopic", "ETopicExists", "EUnknownTopic", "EOther"}
+
+func c16Err(err error) int {
+	switch {
+	case err == nil:
+		return 0
+	case errors.Is(err, metadata.ErrInvalidTopic):
+		return 1
+	case errors.Is(err, metadata.ErrTopicExists):
+		return 2
+	case errors.Is(err, metadata.ErrUnknownTopic):
+		return 3
+	}
+	return 4
+}
+
+// c16StoreOp applies the operation to the real store; returns the Coq op, the Coq result
+// and whether a DeleteTopic succeeded (the one operation that is meant to remove commits:
+// exactly those of the deleted topic)
+func c16StoreOp(ctx context.Context, st metadata.Store, o c16Sop) (string, string, bool) {
+	switch o.K {
+	case "ct":
+		t, err := st.CreateTopic(ctx, metadata.TopicSpec{Name: o.Topic, NumPartitions: o.N, ReplicationFactor: 1})
+		n := 0
+		if err == nil && t != nil {
+			n = len(t.Partitions)
+		}
+		return fmt.Sprintf("OCreateTopic %s %d 1", c16Str(o.Topic), o.N), fmt.Sprintf("RTopic %s %d", c16ErrNames[c16Err(err)], n), false
+	case "dt":
+		err := st.DeleteTopic(ctx, o.Topic)
+		return "ODeleteTopic " + c16Str(o.Topic), "RErr " + c16ErrNames[c16Err(err)], err == nil
+	case "cp":
+		err := st.CreatePartitions(ctx, o.Topic, o.N)
+		return fmt.Sprintf("OCreatePartitions %s %d", c16Str(o.Topic), o.N), "RErr " + c16ErrNames[c16Err(err)], false
+	case "dg":
+		err := st.DeleteConsumerGroup(ctx, o.Group)
+		return "ODeleteGroup " + c16Str(o.Group), "RErr " + c16ErrNames[c16Err(err)], false
+	case "uc":
+		err := st.UpdateTopicConfig(ctx, &metadatapb.TopicConfig{Name: o.Topic, Partitions: o.N, ReplicationFactor: 1, RetentionMs: 1000, RetentionBytes: -1})
+		return fmt.Sprintf("OUpdateCfg (mkCfg %s %d 1 1000 (-1) 0 [])", c16Str(o.Topic), o.N), "RErr " + c16ErrNames[c16Err(err)], false
+	}
+	panic("store op " + o.K)
 }
 
 // the commit request of a step, shorthand expanded
@@ -99,11 +155,9 @@ func (e *c16Env) store(etcd bool) metadata.Store {
 	if _, err := e.cli.Delete(ctx, "/kafscale/", clientv3.WithPrefix()); err != nil {
 		e.t.Fatalf("etcd wipe: %v", err)
 	}
-	st, err := metadata.NewEtcdStore(ctx, initial, metadata.EtcdStoreConfig{Endpoints: e.eps})
-	if err != nil {
-		e.t.Fatalf("NewEtcdStore: %v", err)
-	}
-	return st
+	// built without the snapshot watcher goroutine: histories now create / grow / delete topics,
+	// and the watcher's asynchronous refresh is not this property's subject (C21)
+	return metadata.VerifEtcdStoreNoWatch(e.cli, initial)
 }
 
 // c16Run executes the history; returns the fetch observations (one entry per fetch
@@ -123,15 +177,14 @@ func (e *c16Env) consumerKeys() []string {
 	return out
 }
 
-var c16LastKeys [][]string // per commit step of the last c16Run on etcd: the real key set afterwards
+var c16LastStore [][2]string // per store-op step of the last c16Run: Coq op and Coq result
+var c16LastKeys [][]string   // per commit step of the last c16Run on etcd: the real key set afterwards
 
 func c16Run(e *c16Env, cs c16Case) (obs [][]c16Obs, failKind, fail string) {
 	c16LastKeys = nil
 	ctx := context.Background()
 	st := e.store(cs.Etcd)
-	if es, ok := st.(*metadata.EtcdStore); ok {
-		defer es.Close()
-	}
+	c16LastStore = nil
 	c := &GroupCoordinator{store: st, broker: protocol.MetadataBroker{NodeID: 1}, config: defaultCoordinatorConfig,
 		stopCh: make(chan struct{}), groups: map[string]*groupState{}}
 	ref := map[c16Key]c16Val{}
@@ -141,6 +194,18 @@ func c16Run(e *c16Env, cs c16Case) (obs [][]c16Obs, failKind, fail string) {
 		}
 	}
 	for i, s := range cs.Steps {
+		if s.Sop != nil {
+			op, res, deleted := c16StoreOp(ctx, st, *s.Sop)
+			c16LastStore = append(c16LastStore, [2]string{op, res})
+			if deleted { // DeleteTopic removes the commits of exactly that topic
+				for k := range ref {
+					if k.t == s.Sop.Topic {
+						delete(ref, k)
+					}
+				}
+			}
+			continue
+		}
 		if s.Commit {
 			// a member of the group at the current generation commits
 			c.mu.Lock()
@@ -259,6 +324,9 @@ func c16Run(e *c16Env, cs c16Case) (obs [][]c16Obs, failKind, fail string) {
 func c16Classify(cs c16Case, kind string) string {
 	if cs.Etcd && (kind == "readback" || kind == "never-committed") {
 		for _, s := range cs.Steps {
+			if s.Sop != nil && strings.Contains(s.Sop.Topic, "/") {
+				return "etcd-topic-name-with-slash"
+			}
 			if s.Commit {
 				for _, ct := range s.commitReq() {
 					if strings.Contains(ct.Topic, "/") {
@@ -294,10 +362,17 @@ func c16Str(s string) string {
 	return "(lit \"" + s + "\")"
 }
 
-func c16Coq(cs c16Case, obs [][]c16Obs, keys [][]string) string {
+func c16Coq(cs c16Case, obs [][]c16Obs, keys [][]string, sops [][2]string) string {
 	var steps []string
-	k, kc := 0, 0
+	k, kc, ks_ := 0, 0, 0
 	for _, s := range cs.Steps {
+		if s.Sop != nil {
+			if ks_ < len(sops) {
+				steps = append(steps, fmt.Sprintf("KStore (%s) (%s)", sops[ks_][0], sops[ks_][1]))
+			}
+			ks_++
+			continue
+		}
 		if s.Commit {
 			ks := "None"
 			if cs.Etcd && kc < len(keys) {
@@ -468,8 +543,89 @@ func c16GenFamily(r *vRand, etcd bool) c16Case {
 	return cs
 }
 
+// histories where, between the commits and fetches, the store is operated on through its
+// other methods on RELATED topics and groups (prefix, suffix, case, separators): topics are
+// created, grown, configured, deleted and re-created, groups deleted; after every such
+// operation everything committed is fetched again.
+func c16GenInterleaved(r *vRand, etcd bool) c16Case {
+	cs := c16Case{Etcd: etcd}
+	base := []string{"orders", "a", "t1"}[r.Intn(3)]
+	topics := []string{base, base + "-dlq", base + ".v2", base + "_", base + "0", strings.ToUpper(base), base[:len(base)-1] + "x"}
+	if len(base) > 1 {
+		topics = append(topics, base[:len(base)-1])
+	}
+	groups := []string{"g1", "g1-b", "g", "G1", "g1.", base}
+	nt := r.Range(2, 4)
+	live := topics[:1]
+	for _, i := range []int{1 + r.Intn(len(topics)-1), 1 + r.Intn(len(topics)-1), 1 + r.Intn(len(topics)-1)}[:nt-1] {
+		live = append(live, topics[i])
+	}
+	for _, t := range live {
+		cs.Steps = append(cs.Steps, c16Step{Sop: &c16Sop{K: "ct", Topic: t, N: int32(r.Range(1, 3))}})
+	}
+	type key struct {
+		g, t string
+		p    int32
+	}
+	var committed []key
+	fetchAll := func() {
+		byGroup := map[string]map[string][]int32{}
+		var order []string
+		for _, k := range committed {
+			if byGroup[k.g] == nil {
+				byGroup[k.g] = map[string][]int32{}
+				order = append(order, k.g)
+			}
+			byGroup[k.g][k.t] = append(byGroup[k.g][k.t], k.p)
+		}
+		for _, g := range order {
+			st := c16Step{Group: g}
+			for _, t := range live {
+				if ps := byGroup[g][t]; len(ps) > 0 {
+					st.Req = append(st.Req, c16Req{Topic: t, Parts: ps})
+				}
+			}
+			cs.Steps = append(cs.Steps, st)
+		}
+	}
+	for i := 0; i < r.Range(3, 7); i++ {
+		k := key{groups[r.Intn(3)], live[r.Intn(len(live))], int32(r.Range(0, 2))}
+		dup := false
+		for _, c := range committed {
+			dup = dup || c == k
+		}
+		if !dup {
+			committed = append(committed, k)
+		}
+		cs.Steps = append(cs.Steps, c16Step{Commit: true, Group: k.g, Topic: k.t, Part: k.p, Off: int64(10 + i), Meta: fmt.Sprintf("m%d", i)})
+	}
+	fetchAll()
+	for i := 0; i < r.Range(2, 5); i++ {
+		t := live[r.Intn(len(live))]
+		if r.Chance(30) {
+			t = topics[r.Intn(len(topics))]
+		}
+		var so c16Sop
+		switch r.Intn(8) {
+		case 0, 1, 2:
+			so = c16Sop{K: "dt", Topic: t}
+		case 3:
+			so = c16Sop{K: "ct", Topic: t, N: int32(r.Range(1, 3))}
+		case 4:
+			so = c16Sop{K: "cp", Topic: t, N: int32(r.Range(2, 6))}
+		case 5:
+			so = c16Sop{K: "uc", Topic: t, N: int32(r.Range(0, 3))}
+		default:
+			so = c16Sop{K: "dg", Group: groups[r.Intn(len(groups))]}
+		}
+		cs.Steps = append(cs.Steps, c16Step{Sop: &so})
+		fetchAll()
+	}
+	return cs
+}
+
 func TestVerifC16(t *testing.T) {
-	rep := vNewReport("C16", "generated histories of 2-14 OffsetCommit / OffsetFetch requests through the real GroupCoordinator (more than half of the commits are whole requests of 1-4 topics x 1-4 partitions with per-partition metadata null / empty / text, read back at once) over 1-3 groups x 1-3 topics x partitions, names drawn from an alphabet with ':', '/', '%', unicode and the empty string (40% plain), each history on the real InMemoryStore and on the real EtcdStore; every third history is a group-id family (ids related by path cleaning, trailing/leading/double separators, dot segments, case, unicode normalisation, whitespace, percent-encoding; one slash-free topic and partition; interleaved commits and fetches, a member never committed); on etcd the real key set under /kafscale/consumers/ is read after every commit; a case is non-trivial when a fetch reads back a committed offset and another fetch reads a never-committed partition; distinct = distinct canonical history")
+	rep := vNewReport("C16", "generated histories of 2-14 OffsetCommit / OffsetFetch requests through the real GroupCoordinator (more than half of the commits are whole requests of 1-4 topics x 1-4 partitions with per-partition metadata null / empty / text, read back at once) over 1-3 groups x 1-3 topics x partitions, names drawn from an alphabet with ':', '/', '%', unicode and the empty string (40% plain), each history on the real InMemoryStore and on the real EtcdStore; every third history interleaves the other store operations (CreateTopic, DeleteTopic and re-create, CreatePartitions, UpdateTopicConfig, DeleteConsumerGroup) on topics and groups with names related to the committed ones (prefix, suffix, case, separators) and fetches everything committed after each; every third history is a group-id family (ids related by path cleaning, trailing/leading/double separators, dot segments, case, unicode normalisation, whitespace, percent-encoding; one slash-free topic and partition; interleaved commits and fetches, a member never committed); on etcd the real key set under /kafscale/consumers/ is read after every commit; a case is non-trivial when a fetch reads back a committed offset and another fetch reads a never-committed partition; distinct = distinct canonical history")
 	eps := testutil.StartEmbeddedEtcd(t)
 	cli, err := clientv3.New(clientv3.Config{Endpoints: eps, DialTimeout: 5 * time.Second})
 	if err != nil {
@@ -480,7 +636,7 @@ func TestVerifC16(t *testing.T) {
 	var coq, jsons []string
 	runOne := func(cs c16Case) {
 		obs, kind, fail := c16Run(e, cs)
-		keys := c16LastKeys
+		keys, sops := c16LastKeys, c16LastStore
 		canon, _ := json.Marshal(cs)
 		hit, miss := false, false
 		for _, os_ := range obs {
@@ -514,7 +670,7 @@ func TestVerifC16(t *testing.T) {
 			}
 			rep.Fail(k2, c16Classify(shr, k2), f2, shr)
 		}
-		coq = append(coq, c16Coq(cs, obs, keys))
+		coq = append(coq, c16Coq(cs, obs, keys, sops))
 		jsons = append(jsons, string(canon))
 	}
 	if rc := vReplayCase(); rc != nil {
@@ -534,6 +690,13 @@ func TestVerifC16(t *testing.T) {
 				{Etcd: etcd, Steps: []c16Step{{Commit: true, Group: "a:b", Topic: "c", Off: 7, Meta: "x"}, {Group: "a", Req: []c16Req{{Topic: "b:c", Parts: []int32{0}}}}, {Group: "a:b", Req: []c16Req{{Topic: "c", Parts: []int32{0}}}}}},
 				// etcd path collision (open finding on etcd)
 				{Etcd: etcd, Steps: []c16Step{{Commit: true, Group: "a/offsets/b", Topic: "c", Off: 7, Meta: "x"}, {Group: "a", Req: []c16Req{{Topic: "b/offsets/c", Parts: []int32{0}}}}}},
+				// a topic whose name is a prefix of a committed topic's name is deleted
+				{Etcd: etcd, Steps: []c16Step{{Sop: &c16Sop{K: "ct", Topic: "orders", N: 1}}, {Sop: &c16Sop{K: "ct", Topic: "orders-dlq", N: 1}}, {Sop: &c16Sop{K: "ct", Topic: "orders.v2", N: 2}},
+					{Commit: true, Group: "g1", Topic: "orders", Off: 4, Meta: "a"}, {Commit: true, Group: "g1", Topic: "orders-dlq", Off: 5, Meta: "b"}, {Commit: true, Group: "g1", Topic: "orders.v2", Part: 1, Off: 6, Meta: "c"}, {Commit: true, Group: "g1-b", Topic: "orders-dlq", Off: 7, Meta: "d"},
+					{Sop: &c16Sop{K: "dt", Topic: "orders"}},
+					{Group: "g1", Req: []c16Req{{Topic: "orders", Parts: []int32{0}}, {Topic: "orders-dlq", Parts: []int32{0}}, {Topic: "orders.v2", Parts: []int32{1}}}}, {Group: "g1-b", Req: []c16Req{{Topic: "orders-dlq", Parts: []int32{0}}}},
+					{Sop: &c16Sop{K: "dg", Group: "g1"}}, {Sop: &c16Sop{K: "cp", Topic: "orders-dlq", N: 3}}, {Sop: &c16Sop{K: "uc", Topic: "orders.v2", N: 0}},
+					{Group: "g1", Req: []c16Req{{Topic: "orders-dlq", Parts: []int32{0}}, {Topic: "orders.v2", Parts: []int32{1}}}}}},
 				// one request, several partitions: text metadata, then null, then "" - each partition its own
 				{Etcd: etcd, Steps: []c16Step{{Commit: true, Group: "g1", Creq: []c16CTopic{{Topic: "orders", Parts: []c16CPart{{Part: 0, Off: 5, Meta: c16P("checkpoint-a")}, {Part: 1, Off: 6}, {Part: 2, Off: 7, Meta: c16P("")}}}, {Topic: "events", Parts: []c16CPart{{Part: 0, Off: 8}, {Part: 1, Off: 9, Meta: c16P("b")}}}}},
 					{Group: "g1", Req: []c16Req{{Topic: "orders", Parts: []int32{0, 1, 2, 3}}, {Topic: "events", Parts: []int32{0, 1}}}}}},
@@ -550,6 +713,11 @@ func TestVerifC16(t *testing.T) {
 		r := vNewRand(vSeed())
 		n := vN(120, 1600)
 		for i := 0; i < n; i++ {
+			if i%3 == 1 {
+				rep.Hist("gen:store-ops-on-related-names")
+				runOne(c16GenInterleaved(r.Fork(), i%2 == 1))
+				continue
+			}
 			if i%3 == 2 {
 				rep.Hist("gen:group-id-family")
 				runOne(c16GenFamily(r.Fork(), i%2 == 1))
